@@ -260,6 +260,7 @@ func (w *watchArgs) BlockingReportNewValue(ctx context.Context, val reflect.Valu
 	case w.c <- &vu:
 	}
 
+	verifPoint("api.await-reply")
 	// Submitted, now we wait for the new value to be handled.
 	select {
 	case err := <-installed:
@@ -381,6 +382,7 @@ func (u *userCallbackUnregisterToken[T]) unregister(ctx context.Context) bool {
 		return false
 	}
 
+	verifPoint("api.await-ack")
 	// Wait for the unregister "event" to be processed.
 	select {
 	case <-ctx.Done():
@@ -444,10 +446,12 @@ func (d *Dials[T]) updateSourceValue(
 	if stackErr != nil {
 		oldVal := d.View()
 		newVal, _ := newInterface.(*T)
+		verifPoint("mon.submit-err")
 		d.submitEvent(ctx, &watchErrorEvent[T]{
 			err: stackErr, oldConfig: oldVal, newConfig: newVal,
 		})
 		if watchTab.installed != nil {
+			verifPoint("mon.reply")
 			watchTab.installed <- stackErr
 		}
 		return nil
@@ -460,11 +464,13 @@ func (d *Dials[T]) updateSourceValue(
 
 			newVal := newInterface.(*T)
 
+			verifPoint("mon.submit-err")
 			d.submitEvent(ctx, &watchErrorEvent[T]{
 				err: vfErr, oldConfig: oldVal, newConfig: newVal,
 			})
 
 			if watchTab.installed != nil {
+				verifPoint("mon.reply")
 				watchTab.installed <- vfErr
 			}
 			return nil
@@ -475,9 +481,11 @@ func (d *Dials[T]) updateSourceValue(
 
 	_, oldSerial := d.ViewVersion()
 
+	verifPoint("mon.store")
 	// We can do a blind-store here because this goroutine (monitor()) has
 	// exclusive ownership of writes to this atomic-value
 	d.value.Store(&versionedConfig[T]{serial: oldSerial.s + 1, cfg: newVers})
+	verifPoint("mon.updates")
 	select {
 	case d.updatesChan <- newVers:
 	default:
@@ -485,6 +493,7 @@ func (d *Dials[T]) updateSourceValue(
 
 	// If there's an installed channel, poke it.
 	if watchTab.installed != nil {
+		verifPoint("mon.reply")
 		watchTab.installed <- nil
 	}
 
@@ -520,6 +529,7 @@ func (d *Dials[T]) submitEventBlocking(ctx context.Context, ev userCallbackEvent
 	if d.cbch == nil {
 		return false
 	}
+	verifPoint("api.enqueue")
 	select {
 	case <-ctx.Done():
 		return false
@@ -587,12 +597,14 @@ func (d *Dials[T]) EnableVerification(ctx context.Context) (*T, CfgSerial[T], er
 	}
 	// must have capacity 1
 	resp := make(chan verifyEnableResp[T], 1)
+	verifPoint("api.ctl-send")
 	select {
 	case d.monCtl <- verifyEnable[T]{resp: resp}:
 	case <-ctx.Done():
 		return nil, CfgSerial[T]{}, fmt.Errorf("context expired while signaling: %w", ctx.Err())
 	}
 
+	verifPoint("api.ctl-await")
 	select {
 	case r := <-resp:
 		return r.v, r.tok, r.err
@@ -606,6 +618,7 @@ func (d *Dials[T]) monitorEnableVerify(ve verifyEnable[T]) bool {
 	vt, serial := d.ViewVersion()
 	if vf, ok := any(vt).(VerifiedConfig); ok {
 		if vfErr := vf.Verify(); vfErr != nil {
+			verifPoint("mon.enable-reply")
 			ve.resp <- verifyEnableResp[T]{
 				err: vfErr,
 				v:   nil,
@@ -615,6 +628,7 @@ func (d *Dials[T]) monitorEnableVerify(ve verifyEnable[T]) bool {
 			return false
 		}
 	}
+	verifPoint("mon.enable-reply")
 	ve.resp <- verifyEnableResp[T]{
 		err: nil,
 		v:   vt,
@@ -630,9 +644,12 @@ func (d *Dials[T]) monitor(
 	watcherChan chan watchStatusUpdate,
 	monCtl <-chan verifyEnable[T],
 ) {
+	defer verifPoint("mon.exited")
 	defer close(d.cbch)
+	defer verifPoint("mon.exit")
 	skipVerify := d.params.DelayInitialVerification
 	for {
+		verifPoint("mon.loop")
 		select {
 		case <-ctx.Done():
 			return
@@ -641,6 +658,7 @@ func (d *Dials[T]) monitor(
 				// we're not in skipVerify mode, so just send back
 				// a success and continue
 				cfg, serial := d.ViewVersion()
+				verifPoint("mon.enable-reply")
 				v.resp <- verifyEnableResp[T]{
 					err: nil,
 					v:   cfg,
@@ -655,6 +673,7 @@ func (d *Dials[T]) monitor(
 				oldConfig, oldSerial := d.ViewVersion()
 				newConfig := d.updateSourceValue(ctx, t, skipVerify, sourceValues, v)
 				if newConfig != nil {
+					verifPoint("mon.submit-new")
 					d.submitEvent(ctx, &newConfigEvent[T]{
 						oldConfig: oldConfig,
 						newConfig: newConfig,
@@ -665,6 +684,7 @@ func (d *Dials[T]) monitor(
 				}
 			case *watchErrorReport:
 				if !skipVerify && !d.params.CallGlobalCallbacksAfterVerificationEnabled {
+					verifPoint("mon.submit-srcerr")
 					d.submitEvent(ctx, &watchErrorEvent[T]{
 						err: fmt.Errorf("error reported by source of type %T: %w",
 							v.source, v.err),
